@@ -54,7 +54,9 @@ func (h *harness) violate(sig, detail string, rp replay) {
 	if h.fl.Sub == "C10params" {
 		// this run serves C10's clause "the retry uses the parameter values of the recorded run":
 		// only what a retry sees counts, reported under C10
-		if !strings.Contains(sig, "/params/retry-") && !strings.Contains(sig, "/params/roundtrip-") && !strings.Contains(sig, "/params/hang/retry") {
+		// (and "leaves all other steps with their recorded results": what a retry, or a retry of a retry, hands on as a kept step's output)
+		if !strings.Contains(sig, "/params/retry-") && !strings.Contains(sig, "/params/roundtrip-") && !strings.Contains(sig, "/params/hang/retry") &&
+			!strings.Contains(sig, "/output/value-mismatch/retry") && !strings.Contains(sig, "/output/consumer-did-not-run/retry") && !strings.Contains(sig, "/output/retry-") {
 			return
 		}
 		sig = "C10" + strings.TrimPrefix(sig, "C11")
@@ -268,7 +270,14 @@ func main() {
 	}
 	om := enumOutputs(fl.Thorough())
 	if fl.Sub == "C10params" {
-		om = nil
+		// the retry side of the output family only
+		var keep []omember
+		for _, m := range om {
+			if (m.Shape == shapeFail || m.Shape == shapeFail2) && len(m.data()) <= pipeCap {
+				keep = append(keep, m)
+			}
+		}
+		om = keep
 	}
 	for _, m := range om {
 		if fl.Mine(k) {
